@@ -62,6 +62,9 @@ struct Call {
 struct Shared {
     calls: AtomicUsize,
     log: Mutex<Vec<Call>>,
+    /// failing call numbers of the current step (so that ONE Generation value can be stepped several times
+    /// with a different failure script per step: hidden state kept between steps must not matter)
+    fail_at: Mutex<Vec<usize>>,
 }
 
 #[derive(Debug, Clone, PartialEq)]
@@ -88,7 +91,7 @@ impl<'a> Operator<&'a Pop> for ProbeMaker {
             let t0 = std::time::Instant::now();
             while (t0.elapsed().as_micros() as u64) < self.spin_us { std::hint::spin_loop(); }
         }
-        let failed = self.fail_at.contains(&no);
+        let failed = self.fail_at.contains(&no) || self.shared.fail_at.lock().unwrap().contains(&no);
         self.shared.log.lock().unwrap().push(Call {
             no,
             thread: rayon::current_thread_index().unwrap_or(0),
@@ -307,11 +310,15 @@ fn run_case(d: &mut Driver, r: &mut Report, c: &CaseCfg, g: &mut SplitMix, i: u6
     for (si, fail_at) in c.fails.iter().enumerate() {
         // the child maker carries the failure script, so a new Generation value is built per step from
         // the population the previous step left (`into_population` is not needed: it was cloned)
-        let cm = child_maker(c.d, fail_at.clone(), shared.clone(), c.spin_us);
-        let mut gn = if mutant().is_empty() { Gen::Real(Generation::new(cm, current.clone())) } else { Gen::Mut(MutGeneration { population: current.clone(), child_maker: cm }) };
-        let st = step(&mut gn, &shared, pool.map(|(_, p)| p));
+        // ONE Generation value for all steps of the case; the failure script of the step is handed to the probe
+        // through the shared state
+        *shared.fail_at.lock().unwrap() = fail_at.clone();
+        if gen.is_none() {
+            let cm = child_maker(c.d, vec![], shared.clone(), c.spin_us);
+            gen = Some(if mutant().is_empty() { Gen::Real(Generation::new(cm, current.clone())) } else { Gen::Mut(MutGeneration { population: current.clone(), child_maker: cm }) });
+        }
+        let st = step(gen.as_mut().unwrap(), &shared, pool.map(|(_, p)| p));
         current = st.after.clone();
-        gen = Some(gn);
         let case = format!("generation {mode} n={} d={} failAt={} step={si} #{i}", c.n, c.d, nats(fail_at));
         r.case(&case, c.n >= 2 && c.d >= 1);
         let kind = if st.panicked { "panic" } else if st.result.is_ok() { "ok" } else { "err" };
